@@ -214,12 +214,33 @@ def c04(run):
                  randoms=20000 if run.tier == "quick" else 400000)
 
 
+DECODE_STEPS_CFG = ("SPECIFICATION Spec\nINVARIANT WorkBound\nINVARIANT OffsetInData\nINVARIANT BudgetImplied\nPROPERTY ErrorIsSticky\n"
+                    "PROPERTY Termination\nCHECK_DEADLOCK FALSE\nCONSTANTS MaxLen = %d Fixed = %d Loops = %d LeaveOnError = TRUE\n")
+
+
 def c05(run):
+    big = run.tier == "thorough"
     return check(run, "C05", {"C05"}, [("mutants", TYPE_PARTS), ("own", ONE_PART)],
+                 models=[("DecodeSteps", DECODE_STEPS_CFG % ((12, 6, 3) if big else (7, 4, 2)))], rule=
                  "the C04 inputs; a decode that exceeds the step budget 4*len+64 (hook), the time/memory watchdog, or returns "
-                 "a packet with more list elements than the frame has bytes is a violation",
-                 ["work bound MaxSteps(frame) = 4*Len(frame)+64 guarded reads", "watchdog 2 s / 1 GiB per program, confirmed by a re-run alone"],
+                 "a packet with more list elements than the frame has bytes is a violation; DecodeSteps.tla model-checks that the "
+                 "guarded reader with leave-on-error loops terminates within the bound for every frame length and outcome",
+                 assumptions=["work bound MaxSteps(frame) = 4*Len(frame)+64 guarded reads", "watchdog 2 s / 1 GiB per program, confirmed by a re-run alone"],
                  randoms=20000 if run.tier == "quick" else 400000)
+
+
+def stream_count_proof(run):
+    """Apalache discharges the inductive invariant of StreamIOCount (all header/remaining lengths and chunkings)."""
+    import subprocess
+    obl = [("Init", "IndInv", 0), ("IndInv", "IndInv", 1), ("IndInv", "Safe", 0)]
+    for init, inv, length in obl:
+        pr = subprocess.run(["apalache-mc", "check", "--init=" + init, "--inv=" + inv, "--length=%d" % length,
+                             "--out-dir=" + os.path.join(run.dir, "apalache-out"), os.path.join(run.specdir, "StreamIOCount.tla")],
+                            capture_output=True, text=True, timeout=1800, cwd=run.dir)
+        if "EXITCODE: OK" not in pr.stdout:
+            raise Infra("Apalache obligation %s => %s failed:\n%s" % (init, inv, pr.stdout[-1500:]))
+    return {"apalache_obligations": len(obl), "apalache_discharged": len(obl),
+            "apalache_what": "StreamIOCount: Init => IndInv, IndInv /\\ Next => IndInv', IndInv => Safe (unbounded lengths and chunkings)"}
 
 
 def c06(run):
@@ -232,11 +253,12 @@ def c06(run):
 
 
 def c07(run):
-    return check(run, "C07", {"C07"}, [("sched", TYPE_PARTS)],
+    return check(run, "C07", {"C07"}, [("sched", TYPE_PARTS)], extra_cov=(stream_count_proof(run) if run.tier == "thorough" else None), rule=
                  "every corpus frame of at most 7 (thorough 10) bytes x every composition of its length into chunks x final "
                  "chunk with io.EOF or (0, io.EOF) after, plus (0,nil) reads at up to two positions; each Read is a StreamIO "
-                 "step and the outcome must equal the outcome of the contiguous read",
-                 ["D5: same rejection = nil packet and non-nil error", "D6: request sizes free as long as they cannot over-read"],
+                 "step and the outcome must equal the outcome of the contiguous read; long frames (2- and 3-byte remaining length) "
+                 "with chosen splits and zero-length reads; thorough: StreamIOCount inductive invariant by Apalache",
+                 assumptions=["D5: same rejection = nil packet and non-nil error", "D6: request sizes free as long as they cannot over-read"],
                  models=[("MC_Stream", MC_STREAM_CFG)])
 
 
